@@ -56,7 +56,8 @@ class FileConfig:
         self.data[key] = try_conv(value, CONVERTERS)
 
     def __delitem__(self, key):
-        if key in self.data:
+        # Only keys of the project configuration can be unset, defaults stay.
+        if key in self.data.maps[0]:
             del self.data[key]
 
     def __len__(self):
